@@ -1,0 +1,20 @@
+//! Verification hooks (only compiled with `--cfg x86_64_verif`; never part of a normal build).
+//!
+//! `pushfq` cannot be intercepted in user mode and always shows IF=1 there. The overlay lets a
+//! user-space monitor that emulates `cli`/`sti` make [`crate::registers::rflags::read_raw`]
+//! report the emulated interrupt flag instead.
+
+use core::sync::atomic::{AtomicU8, Ordering};
+
+/// 0 = overlay off, 1 = IF reads as 0, 2 = IF reads as 1.
+pub static RFLAGS_IF_OVERLAY: AtomicU8 = AtomicU8::new(0);
+
+/// Applies the overlay to a raw RFLAGS value.
+#[inline]
+pub fn overlay_if(raw: u64) -> u64 {
+    match RFLAGS_IF_OVERLAY.load(Ordering::Relaxed) {
+        1 => raw & !(1 << 9),
+        2 => raw | (1 << 9),
+        _ => raw,
+    }
+}
